@@ -211,6 +211,10 @@ func CheckAlloc(now uint64) {
 func ReadOnlyBegin(label string, roots ...interface{}) {}
 func ReadOnlyEnd()                                   {}
 func PermuteMaps(on bool)                            {}
+
+// PermuteOneMap: exactly one of the map iterations that follow (inside go-ucfg)
+// is enumerated in every non-canonical order; PermuteMaps(false) ends the mode.
+func PermuteOneMap() {}
 func Note(key string, v interface{})                 { fmt.Printf("NOTE %s = %#v\n", key, v) }
 func Taint()                                         {}
 func Concretize(v interface{}) interface{}           { return v }
